@@ -838,13 +838,15 @@ func (mvcc *MVCCLevelDB) Prewrite(req *kvrpcpb.PrewriteRequest) []error {
 	batch := &leveldb.Batch{}
 	errs := make([]error, 0, len(mutations))
 	txnSize := req.TxnSize
+	// A retried prewrite meets the transaction's own lock; it must not block its own existence check.
+	resolvedLocks := append(append([]uint64{}, req.Context.GetResolvedLocks()...), startTS)
 	for i, m := range mutations {
 		// If the operation is Insert, check if key is exists at first.
 		var err error
 		// no need to check insert values for pessimistic transaction.
 		op := m.GetOp()
 		if (op == kvrpcpb.Op_Insert || op == kvrpcpb.Op_CheckNotExists) && forUpdateTS == 0 {
-			v, err := mvcc.getValue(m.Key, startTS, kvrpcpb.IsolationLevel_SI, req.Context.ResolvedLocks)
+			v, err := mvcc.getValue(m.Key, startTS, kvrpcpb.IsolationLevel_SI, resolvedLocks)
 			if err != nil {
 				errs = append(errs, err)
 				anyError = true
